@@ -560,7 +560,64 @@ def rule_between(fx, rep):
             ok = False
             rep.violation("C07-BETWEEN", "C07-BETWEEN/unaligned", f"`{b.name}` line {line} can return a possibly non-empty set on a path where none of its alignment tests {sorted(tests)} holds: "
                           f"pairs of squares on no common line get squares 'between' them", {"fn": b.name, "file": b.file, "line": line})
-    rep.sample({"rule": "C07-BETWEEN", "alignment_tests": sorted(tests), "non_empty_return_sites": n})
+    # open interval: the set excludes both squares it lies between. Where the walk that accumulates squares starts ON one of
+    # the two squares (no priming step before the first accumulation), that square has to be removed again - and it is whichever
+    # argument the `min_by_key` / orientation logic picked, not a fixed one of the two parameters
+    walks = 0
+    for (bb, t) in b.calls():
+        if not callee_name(t).endswith("BitOrAssign>::bitor_assign") or len(t["args"]) != 2 or "pl" not in t["args"][1]:
+            continue
+        if bb not in b.reachable(t["target"]) if "target" in t else True:
+            continue  # not inside a loop
+        cl = t["args"][1]["pl"]["l"]
+        srcs = [d for d in b.defs().get(cl, []) if d[0] == "stmt" and d[1] == bb]
+        cur = None
+        if srcs and srcs[-1][3]["rv"]["k"] == "use" and "pl" in srcs[-1][3]["rv"]["op"] and not srcs[-1][3]["rv"]["op"]["pl"].get("p"):
+            cur = srcs[-1][3]["rv"]["op"]["pl"]["l"]
+        if cur is None:
+            continue
+        kinds = []
+        for d in b.reaching_defs(cur, bb):
+            if d[0] == "stmt":
+                e = deep_strip(b.expr(d[3]["rv"]["op"], expand_named=False, at=d[1])) if d[3]["rv"]["k"] == "use" else None
+            elif d[0] == "call":
+                e = ("call", callee_name(d[2]), tuple(deep_strip(b.expr(a, expand_named=False, at=d[1])) for a in d[2]["args"]))
+            else:
+                e = None
+            if isinstance(e, tuple) and e and e[0] == "call" and "bitboard::Bitboard::" in str(e[1]) and e[2] and "Bitboard" in show(e[2][0]) + str(e[1]) and not str(e[1]).endswith("::new"):
+                kinds.append(("stepped", e, d[1]))
+            elif isinstance(e, tuple) and e and e[0] == "call" and str(e[1]).endswith("Square::bb") and len(e[2]) == 1:
+                kinds.append(("on", e[2][0], d[1]))
+            else:
+                kinds.append(("?", e, d[1]))
+        if any(k[0] == "?" for k in kinds) or not kinds:
+            rep.notes.append(f"C07-BETWEEN: the walk cursor at line {t.get('line')} has a definition this clause does not classify; open-interval clause not decided for this walk")
+            continue
+        walks += 1
+        starts = [k for k in kinds if k[0] == "on" and bb in b.reachable(k[2], removed_blocks=[x[2] for x in kinds if x[0] == "stepped" and x[2] not in b.reachable(bb)])]
+        # a start definition counts only if it can reach the accumulation without passing a stepping definition outside the loop
+        good = True
+        why = None
+        for (_, sq_e, dbb) in starts:
+            # the value returned after this walk must remove the start square: `.. & !(start.bb())` or `.. & !(s1.bb() | s2.bb())`
+            rets = [x for x in sites if x[0] in b.reachable(bb)]
+            for (rb, line) in rets:
+                vals = [show(deep_strip(b.expr(st["rv"]["ops"][0] if st["rv"]["k"] == "agg" and st["rv"].get("ops") else st["rv"].get("op", {}), expand_named=False, at=rb)))
+                        for st in b.blocks[rb]["stmts"] if st["k"] == "assign" and st["lhs"]["l"] == 0 and not st["lhs"].get("p")]
+                txt = " ".join(vals)
+                masked = "Not" in txt or "!" in txt
+                covers = masked and (show(sq_e) in txt or all(nm in txt for nm in (b.local_name(1) or "_1", b.local_name(2) or "_2")))
+                if not covers:
+                    good = False
+                    why = (show(sq_e), line)
+        rep.obligation(good)
+        n += 1
+        if not good:
+            ok = False
+            rep.violation("C07-BETWEEN", "C07-BETWEEN/open-interval", f"`{b.name}`: the walk accumulating squares (line {t.get('line')}) starts on `{why[0]}` without a step before the first accumulation, and the value returned "
+                          f"at line {why[1]} does not remove that square again (removing one fixed parameter is not enough: the start is whichever argument the orientation picked): the set 'between' two squares contains one of them "
+                          "for half of the aligned ordered pairs", {"fn": b.name, "file": b.file, "line": t.get("line")})
+    rep.sample({"rule": "C07-BETWEEN", "alignment_tests": sorted(tests), "non_empty_return_sites": len(sites), "walks_checked_for_open_interval": walks})
     rep.rule("C07-BETWEEN", n, 1, ok, "non-empty squares-between only under an alignment test")
 
 
@@ -716,7 +773,13 @@ def rule_magic(fx, rep):
 
 MG = "src/chess/movegen/tables/magics.rs"
 BB = "src/chess/bitboard.rs"
+_PRIME = "        current_square = current_square.east();\n\n        while current_square != end_square {\n            squares |= current_square;\n            current_square = current_square.east();\n        }\n\n        return Some(squares);"
+_NOPRIME = "        while current_square != end_square {\n            squares |= current_square;\n            current_square = current_square.east();\n        }\n\n        return Some(squares & !%s);"
 MUTANTS = [
+    {"name": "walk of the same-rank case starts on the left-most square and only s1 is masked out (seed C07-7a)", "expect": "C07-BETWEEN/open-interval",
+     "edits": [("src/chess/movegen/tables/between.rs", _PRIME, _NOPRIME % "s1.bb()")]},
+    {"name": "walk of the same-rank case starts on the left-most square and both end squares are masked out", "benign": True,
+     "edits": [("src/chess/movegen/tables/between.rs", _PRIME, _NOPRIME % "(s1.bb() | s2.bb())")]},
     {"name": "rook filler skips subsets with more than ten blockers (seed C07-6a)", "expect": "C07-FILL/rook",
      "edits": [("src/chess/movegen/tables/magics.rs", "        let occupancy_subsets = SubsetsOf::new(occupancies);\n\n        for blockers in occupancy_subsets {\n            let idx = table_index_rook(s, blockers);", "        let occupancy_subsets = SubsetsOf::new(occupancies).filter(|blockers| blockers.count() <= 10);\n\n        for blockers in occupancy_subsets {\n            let idx = table_index_rook(s, blockers);")]},
     {"name": "pawn attack generator by index arithmetic with an off-by-one board bound (seed C07-5b)", "expect": "C07-LEAPGEN/pawn/White",
